@@ -183,6 +183,56 @@ def hash_int(s):
 
 
 # ------------------------------------------------------------------------------- findings
+
+# --------------------------------------------------------------- source pins / escalation
+# tools/source_pins.json holds, per cgsmiles/*.py, the digest of its `ast.dump` (comments and layout do
+# not count) at the /repo commit this /verif was last validated on.  A change never is an alarm; it only
+# makes the search work harder exactly when the modelled source is no longer the validated one.
+_FILE_PROPS = {
+    'cgsmiles/read_cgsmiles.py': ['C04', 'C05', 'C20', 'C07', 'C14', 'C11'],
+    'cgsmiles/read_fragments.py': ['C13', 'C01', 'C15', 'C08', 'C06', 'C12', 'C14', 'C20', 'C03'],
+    'cgsmiles/resolve.py': ['C03', 'C02', 'C10', 'C11', 'C12', 'C06', 'C01', 'C09', 'C15', 'C20', 'C14', 'C08'],
+    'cgsmiles/graph_utils.py': ['C02', 'C12', 'C16', 'C06', 'C01', 'C11', 'C15', 'C17', 'C10'],
+    'cgsmiles/pysmiles_utils.py': ['C09', 'C14', 'C15', 'C17', 'C01', 'C02', 'C10', 'C12', 'C16', 'C13'],
+    'cgsmiles/write_cgsmiles.py': ['C07', 'C08'],
+    'cgsmiles/sample.py': ['C16', 'C17', 'C09'],
+    'cgsmiles/cgsmiles_utils.py': ['C16', 'C17', 'C06', 'C14', 'C08'],
+    'cgsmiles/rdkit.py': ['C18'],
+    'cgsmiles/coordinates.py': ['C18'],
+    'cgsmiles/graph_layout.py': ['C19'],
+    'cgsmiles/graph_layout_utils.py': ['C19'],
+    'cgsmiles/linalg_functions.py': ['C19'],
+    'cgsmiles/dialects.py': ['C14', 'C20', 'C04', 'C13'],
+}
+
+
+def source_digest(path):
+    import ast
+    try:
+        return hashlib.sha256(ast.dump(ast.parse(open(path).read())).encode()).hexdigest()
+    except (OSError, SyntaxError, ValueError) as exc:
+        return 'unreadable: %s' % type(exc).__name__
+
+
+def changed_sources(prop_id):
+    """files of /repo relevant for the property whose AST differs from the pinned one (new files count)"""
+    try:
+        pins = json.load(open(os.path.join(VERIF, 'tools', 'source_pins.json')))['files']
+    except (OSError, ValueError, KeyError):
+        return []
+    out = []
+    d = os.path.join(REPO, 'cgsmiles')
+    try:
+        names = sorted(f for f in os.listdir(d) if f.endswith('.py'))
+    except OSError:
+        return []
+    for f in names:
+        rel = 'cgsmiles/' + f
+        if pins.get(rel) != source_digest(os.path.join(d, f)):
+            if rel not in pins or prop_id in _FILE_PROPS.get(rel, [prop_id]):
+                out.append(rel)
+    return out
+
 def load_known_findings():
     """known_findings.json (committed; never written at run time; assembled by tools/mkmanifest.py
     from known_findings.d/Cxx.json)"""
@@ -410,6 +460,7 @@ class Prop:
     quick_cases = 400
     thorough_cases = 6000
     extended_cases = 3000   # extra budget of the search when an obligation/correspondence broke
+    src_escalation = 4      # quick tier: extra round of this many times quick_cases when the modelled source changed
     fail_text = {}
 
     # -- to be provided ------------------------------------------------------------------
@@ -524,6 +575,10 @@ def run_prop(prop, ctx):
 
     # 2. cases: corpus first, then generated
     n = prop.thorough_cases if ctx.thorough() else prop.quick_cases
+    changed = changed_sources(prop.id)
+    if changed:
+        ctx.coverage['source_changed_files'] = changed
+        ctx.notes.append('source differs from the pinned (validated) AST in %s: search budget raised' % ', '.join(changed))
     failing = []          # (case, impl, code)
     mismatching = []      # (case, impl)
     rounds = [('main', n)]
@@ -560,10 +615,16 @@ def run_prop(prop, ctx):
                 fc = prop.python_oracle(c, i) or prop.extra_fail(c, i)
                 if fc:
                     failing.append((c, i, fc))
-        need_more = (ctx.broken or mismatching) and not [f for f in failing if f[2] < 0 or not prop.known_class(*f)]
+        unlisted = [f for f in failing if f[2] < 0 or not prop.known_class(*f)]
+        need_more = (ctx.broken or mismatching) and not unlisted
         if need_more and not done_extended:
             done_extended = True
             rounds.append(('ext', prop.extended_cases * (4 if ctx.thorough() else 1)))
+        elif tag == 'main' and changed and not unlisted and not need_more and not rounds:
+            # the modelled source is not the validated one: search harder (never an alarm by itself)
+            extra = n * (1 if ctx.thorough() else prop.src_escalation)
+            ctx.coverage['source_changed_extra_cases'] = extra
+            rounds.append(('src', extra))
     ctx.coverage['correspondence_mismatches'] = len(mismatching)
     ctx.coverage['traces_validated_against_impl'] = ctx.coverage['evaluations']
 
